@@ -1,6 +1,6 @@
 """Build the Lean project for one property and audit its theorems.
 
-* `lake build VOPyVerif.Props.<ID> driver` — re-checks anything whose source changed.
+* `lake build driver_<id> VOPyVerif.Props.<ID>` — re-checks anything whose source changed.
 * obligations = every `theorem` declared in Props/<ID>.lean (namespace VOPy.<ID>).
 * audit: a scratch file importing the property module runs `#print axioms` on each obligation;
   allowed axioms are propext, Classical.choice, Quot.sound.
@@ -63,7 +63,7 @@ def ensure(prop: str) -> dict:
     t0 = time.time()
     res = {"obligations": obligations(prop), "discharged": [], "failures": [], "axioms": {},
            "build_ok": False, "driver_ok": False}
-    rc, log = run(["lake", "build", "driver"])
+    rc, log = run(["lake", "build", f"driver_{prop.lower()}"])
     res["driver_ok"] = rc == 0
     if rc != 0:
         res["log"] = log[-4000:]
@@ -76,7 +76,7 @@ def ensure(prop: str) -> dict:
         res["failures"].append(f"lake build VOPyVerif.Props.{prop} failed")
     # forbidden tokens
     bad = []
-    for f in sorted((LEAN_DIR / "VOPyVerif").rglob("*.lean")) + [LEAN_DIR / "Driver.lean"]:
+    for f in sorted((LEAN_DIR / "VOPyVerif").rglob("*.lean")) + sorted((LEAN_DIR / "Drivers").glob("*.lean")):
         for m in FORBIDDEN.finditer(strip_comments(f.read_text())):
             bad.append(f"{f.relative_to(LEAN_DIR)}: {m.group(0).strip()}")
     if bad:
